@@ -233,6 +233,7 @@ def random_traces(rng, count, steps):
         S = rng.choice([1.0, 0.5, -0.5, 2.0])
         u = rng.choice([1.0, 0.5, 2.0])
         P = Params(dt=dt, D=D, tau=tau, A=A, S=S, u=u, alpha=0.5, target=1, obsmode=rng.choice(["float", "tol", "edge"]),
+                   f64=rng.random() < 0.3,
                    exact=True)
         shape = rng.choice([(1,), (2,), (3,), (2, 2), (2, 3)])
         E = math.prod(shape)
@@ -402,7 +403,7 @@ def run(tier: str, seed: int) -> int:
                                 mode = ["float", "tol", "bool", "edge"][pi]
                                 if mode == "bool":
                                     pd = dict(pd, u=1.0)
-                            P = Params(D=c["Dt0"], obsmode=mode, **pd)
+                            P = Params(D=c["Dt0"], obsmode=mode, f64=(mode != "bool" and rng.random() < 0.3), **pd)
                             st, mism = replay_class(chk, g, rk, durk, incl, P, inplace, rng, max_states, E=c["E0"])
                             tot_e += st.edges
                             tot_m += st.mismatches
